@@ -21,7 +21,7 @@ import (
 // Entry is one member of a file list.
 type Entry struct {
 	Name    string
-	Mode    string // "file", "symlink", "dir", "device", "pipe"
+	Mode    string // "file", "symlink", "dir", "device", "pipe", "irregular", "socket", "chardev"
 	Content []byte
 	Size    int64 // reported size; -1 = len(Content)
 	Read    string `json:",omitempty"` // how Open's reader delivers the content: "" at once; "eofdata" the last bytes together with io.EOF; "byte" one byte per call; "chunk" 7 bytes per call, the last with io.EOF
@@ -44,6 +44,12 @@ func (e Entry) FileMode() os.FileMode {
 		return os.ModeDevice | 0o644
 	case "pipe":
 		return os.ModeNamedPipe | 0o644
+	case "irregular":
+		return os.ModeIrregular | 0o644
+	case "socket":
+		return os.ModeSocket | 0o644
+	case "chardev":
+		return os.ModeDevice | os.ModeCharDevice | 0o644
 	}
 	return 0o644
 }
@@ -198,6 +204,8 @@ func GenList(t *rapid.T, hostile bool) ListCase {
 				e.Mode = "device"
 			case m < 13:
 				e.Mode = "pipe"
+			case m < 15:
+				e.Mode = []string{"irregular", "socket", "chardev"}[gen.Uniform(t, 3, "oddmode")]
 			}
 		}
 		if e.Mode == "file" {
@@ -234,6 +242,18 @@ func GenList(t *rapid.T, hostile bool) ListCase {
 			}
 		}
 		c.Entries = keep
+	}
+	// two files of the same length and the same CRC-32 with different contents: whoever identifies files by a
+	// weak fingerprint confuses them
+	if gen.Chance(t, 6, "crctwins") {
+		a := []byte("package twins\n\nconst N = " + []string{"1", "22", "333", "4444"}[gen.Uniform(t, 4, "twinn")] + "\n// pad pad\n")
+		if b := gen.CRCTwin(a); b != nil {
+			d1, d2 := "twins/", "twins/"
+			if gen.Chance(t, 50, "twindirs") {
+				d1, d2 = "a/", "sub/deep/"
+			}
+			c.Entries = append(c.Entries, Entry{Name: d1 + "one.go", Mode: "file", Content: a, Size: -1}, Entry{Name: d2 + "two.go", Mode: "file", Content: b, Size: -1})
+		}
 	}
 	// lying sizes: only in ways that make the list fail the check (nothing large is ever written)
 	if hostile && gen.Chance(t, 8, "bigsizes") {
@@ -283,7 +303,7 @@ func OKListBig(c ListCase, maxContent int) bool {
 	}
 	for _, e := range c.Entries {
 		switch e.Mode {
-		case "file", "symlink", "dir", "device", "pipe":
+		case "file", "symlink", "dir", "device", "pipe", "irregular", "socket", "chardev":
 		default:
 			return false
 		}
